@@ -78,7 +78,14 @@ def gen_plan(tape, cfg):
         elif k == "assert_soft":
             gid = tape.choice([None, "g1", "g2", "I"], "soft.id")     # "I" is the parser's default group id
             w = tape.choice([None, 1, 2, 5], "soft.w")
-            ops.append({"op": "assert_soft", "f": bp.gen_term(tape, bp.BOOL, 1, ctx), "id": gid, "w": w})
+            prev_soft = [po for po in ops if po["op"] == "assert_soft"]
+            if prev_soft and tape.chance(1, 3, "soft.repeat"):
+                # the same clause soft-asserted again (same or another group, same or another weight)
+                po = tape.choice(prev_soft, "soft.repeat.which")
+                ops.append({"op": "assert_soft", "f": po["f"], "id": po["id"] if tape.chance(2, 3, "soft.same_id") else gid,
+                            "w": po["w"] if tape.chance(1, 2, "soft.same_w") else w})
+            else:
+                ops.append({"op": "assert_soft", "f": bp.gen_term(tape, bp.BOOL, 1, ctx), "id": gid, "w": w})
         elif k == "push":
             lv = tape.weighted([(5, 1), (3, 2), (1, 0)], "push.n")
             ops.append({"op": "push", "n": lv})
@@ -140,7 +147,7 @@ def gen_plan(tape, cfg):
         # a second concrete tracking solver: the real Portfolio (its proxies differ: _reset_assertions
         # is not wrapped in clear_pending_pop) over two simulated member processes
         plan["backend"] = "portfolio"
-        plan["ops"] = [o for o in ops if o["op"] not in ("solve_assuming", "oneshot_fails")][:14]
+        plan["ops"] = [o for o in ops if o["op"] not in ("oneshot_fails",)][:14]
         plan["delays"] = [tape.choice([0.0, 0.5, 0.5, 1.0], "pf.delay") for _ in range(2)]
     return plan
 
@@ -447,6 +454,12 @@ def _portfolio_half(plan, ops, symbols, tape, probe, trace):
                     observe("%s@%d" % (k, i))
                     pending = False
                 continue
+            elif k == "solve_assuming":
+                # (the Portfolio does not forward assumptions to its members, so only the assertion
+                # list is judged here, not the verdict)
+                fs = [bp.build(t_, env) for t_ in o["fs"]]
+                api("portfolio.solve(assumptions)", pf.solve, fs)
+                probe("portfolio_solve_with_assumptions")
             elif k == "read":
                 observe("read@%d" % i)
                 pending = False
